@@ -644,6 +644,7 @@ def _run_curve(case, out):
         w0 = _make_world(case)
         try:
             from sim import conc as _conc
+            env.reset_globals()      # lazily built module-level state is empty again: the threads are its first users
             dry = build(w0, [], [], False)
             dry.shallow_files = _conc.shallow_files()
             dry.run(first=0)
@@ -660,6 +661,7 @@ def _run_curve(case, out):
         pre = [_resolve_pre(p, horizon, dry) for p in case["preempt"]]
         w1 = _make_world(case)
         try:
+            env.reset_globals()
             s = build(w1, pre, case["choices"], True)
             s.run(first=case.get("first"))
         finally:
